@@ -55,13 +55,14 @@ conf() {
     C07) PKG=c07;;
     C08) PKG=c08;;
     C11) PKG=c11;;
+    C13) PKG=c13;;
     C14) PKG=c14;;
     *) return 1;;
   esac
   QT="${QT}"; return 0
 }
 
-ALL_IDS="C01 C02 C03 C04 C05 C06 C07 C08 C11 C14"
+ALL_IDS="C01 C02 C03 C04 C05 C06 C07 C08 C11 C13 C14"
 
 build_one() { # id -> builds $BIN
   conf "$1" || { echo "check.sh: unknown property $1" >&2; return 2; }
